@@ -66,6 +66,10 @@ pub struct C08Case {
 	/// create every job in an action of its own (separate events, the worker may change threads in between)
 	#[serde(default)]
 	pub spread: bool,
+	/// the graceful quit is requested with SIGKILL (`quit_gracefully(Signal::ForceStop, grace)`, the idiom for
+	/// "stop everything now"): every process of every job, group members included, must be gone
+	#[serde(default)]
+	pub quit_force: bool,
 }
 
 const ARMED_GRACE_MS: u64 = 400;
@@ -174,6 +178,7 @@ pub fn run(c: &C08Case) -> Outcome {
 		config.throttle(Duration::from_millis(0));
 		let specs = c.jobs.clone();
 		let graceful = c.graceful;
+		let quit_signal = if c.quit_force { Signal::ForceStop } else { Signal::Terminate };
 		let same_action = c.same_action;
 		let cmds: Vec<Arc<Command>> = specs.iter().enumerate().map(|(i, s)| command(s, i, &logs)).collect();
 		let jobs2 = jobs.clone();
@@ -182,7 +187,7 @@ pub fn run(c: &C08Case) -> Outcome {
 			let phase = action.events.iter().find_map(crate::wxrun::id_of).unwrap_or(0);
 			let do_quit = |action: &mut watchexec::action::ActionHandler| match graceful {
 				None => action.quit(),
-				Some(g) => action.quit_gracefully(Signal::Terminate, Duration::from_millis(u64::from(g))),
+				Some(g) => action.quit_gracefully(quit_signal, Duration::from_millis(u64::from(g))),
 			};
 			match phase {
 				10..=29 => {
@@ -384,10 +389,19 @@ pub fn run(c: &C08Case) -> Outcome {
 	}
 	kill_all(&pids);
 	if let Some((kind, pid)) = survivors.first() {
+		// the job a surviving group member belongs to
+		let member_job = logs.lines().iter().find(|l| l[0] == "gstart" && l[1] == pid.to_string()).and_then(|l| l.get(3).and_then(|t| t.strip_prefix("job")).and_then(|n| n.parse::<usize>().ok()));
+		let member_ignores = member_job.and_then(|i| c.jobs.get(i)).map_or(false, |j| j.cmd % 4 == 2);
+		// an earlier graceful stop / try-restart with SIGTERM (states 3 and 5) already left the member behind
+		let earlier_graceful_stop = member_job.and_then(|i| c.jobs.get(i)).map_or(false, |j| matches!(j.state % 6, 3 | 5));
 		let sig = if kind == "start" {
 			if c.graceful.is_some() { "child-survives-graceful-quit" } else { "child-survives-abort" }
-		} else {
+		} else if member_ignores && (!c.quit_force || earlier_graceful_stop) {
+			// the recorded open finding: the leader exits on the signal, the member ignores it
 			"graceful-quit/grouped/group-member-ignores-stop-signal/survives"
+		} else {
+			// a member that does not ignore the signal, or a quit with SIGKILL, which cannot be ignored
+			"graceful-quit/grouped/group-member-survives"
 		};
 		o.fail(sig, format!("process {pid} ({kind}) is still alive 300 ms after main returned{}", dump(&logs)));
 	}
@@ -406,7 +420,9 @@ fn strategy() -> BoxedStrategy<C08Case> {
 	let general = (proptest::collection::vec(job, 0..5), proptest::option::weighted(0.6, prop_oneof![Just(0u16), Just(100), Just(400), Just(900)]), proptest::bool::weighted(0.25))
 		.prop_map(|(jobs, graceful, same_action)| {
 			let spread = !same_action && jobs.len() % 2 == 0;
-			C08Case { jobs, graceful, same_action, spread }
+			// a third of the graceful quits use SIGKILL as the quit signal
+			let quit_force = graceful.is_some() && (jobs.len() + usize::from(graceful.unwrap_or(0) / 100)) % 3 == 0;
+			C08Case { jobs, graceful, same_action, spread, quit_force }
 		});
 	// several jobs that all need their full grace period: the periods must run concurrently
 	let slow = (proptest::collection::vec((0u8..3, prop_oneof![Just(1u8), Just(3)], prop_oneof![3 => Just(1u8), 1 => Just(3u8)], any::<bool>()), 2..5), prop_oneof![Just(400u16), Just(900)])
@@ -415,6 +431,7 @@ fn strategy() -> BoxedStrategy<C08Case> {
 			graceful: Some(g),
 			same_action: false,
 			spread: g == 900,
+			quit_force: false,
 		});
 	// many jobs, each created in an action of its own on a 4-worker runtime, clones held elsewhere, graceful quit
 	let many = (proptest::collection::vec((0u8..3, 0u8..2, any::<bool>()), 5..9), prop_oneof![Just(100u16), Just(400)]).prop_map(|(js, g)| C08Case {
@@ -422,6 +439,7 @@ fn strategy() -> BoxedStrategy<C08Case> {
 		graceful: Some(g),
 		same_action: false,
 		spread: true,
+		quit_force: false,
 	});
 	prop_oneof![6 => general, 2 => slow, 1 => many].boxed()
 }
@@ -568,7 +586,7 @@ pub fn check(e: &Engine) {
 		LegOpts::realtime(
 			e.tier.pick(220, 4_000),
 			16,
-			"0-4 jobs (plain / grouped / session; command exits on the signal, ignores it, or forks a group member that ignores / exits) in states never-started, running, finished, running with an armed grace timer (stop or try-restart), deleted; handle clones held outside, queued sleeps; abort or graceful quit (grace 0-900 ms), optionally requested in the same action that created the jobs, or with every job created in an action of its own on a 4-worker runtime (up to 8 jobs); non-trivial = >=1 job running at the quit and (armed timer | signal-ignoring command | held clone | quit in the creating action)",
+			"0-4 jobs (plain / grouped / session; command exits on the signal, ignores it, or forks a group member that ignores / exits) in states never-started, running, finished, running with an armed grace timer (stop or try-restart), deleted; handle clones held outside, queued sleeps; abort or graceful quit (grace 0-900 ms, with SIGTERM or - a third of the graceful quits - SIGKILL as the quit signal, after which no group member may be left either), optionally requested in the same action that created the jobs, or with every job created in an action of its own on a 4-worker runtime (up to 8 jobs); non-trivial = >=1 job running at the quit and (armed timer | signal-ignoring command | held clone | quit in the creating action)",
 		),
 		&strategy,
 		&run,
